@@ -91,7 +91,12 @@ impl Decimal {
     pub(crate) fn to_sign_extended_bytes_with_len(&self, len: usize) -> AvroResult<Vec<u8>> {
         let sign_byte = 0xFF * u8::from(self.value.sign() == Sign::Minus);
         let mut decimal_bytes = vec![sign_byte; len];
-        let raw_bytes = self.value.to_signed_bytes_be();
+        // Zero does not need any bytes, this allows a zero-length decimal to be written back
+        let raw_bytes = if self.value.sign() == Sign::NoSign {
+            Vec::new()
+        } else {
+            self.value.to_signed_bytes_be()
+        };
         let num_raw_bytes = raw_bytes.len();
         let start_byte_index = len.checked_sub(num_raw_bytes).ok_or(Details::SignExtend {
             requested: len,
